@@ -1,4 +1,5 @@
 #!/bin/sh
+export VERIF_EVIDENCE_DIR=/tmp/seedtools/evidence   # runs on a patched tree must not overwrite the committed evidence
 # tools/try_seed.sh <PID> <worktree> <mN> : verify the demo (fails with patch, passes without) in the scratch worktree,
 # then apply the patch to /repo, run ./check PID quick, undo.  Prints a one-line summary.
 PID=$1; WT=$2; M=$3
